@@ -399,7 +399,7 @@ func runOverlayTest(repo, work, src string) (string, string, error) {
 	os.WriteFile(ovFile, ovb, 0o644)
 	ctx, cancel := context.WithTimeout(context.Background(), 120*time.Second)
 	defer cancel()
-	args := []string{"test", "-overlay", ovFile, "-vet=off", "-timeout", "60s", "-count=1", "-run", "^TestGovcReplay$", "."}
+	args := []string{"test", "-v", "-overlay", ovFile, "-vet=off", "-timeout", "60s", "-count=1", "-run", "^TestGovcReplay$", "."}
 	cmd := exec.CommandContext(ctx, "go", args...)
 	cmd.Dir = repo
 	cmd.Env = append(os.Environ(), "GOFLAGS=-mod=mod", "GOPROXY=off", "GOSUMDB=off", "GOTOOLCHAIN=local")
